@@ -456,9 +456,7 @@ def _run_callers(desc):
     from vt import sani
     sh = Shard()
     V = VRT()
-    # bloboverlaps allocates its link table with malloc: block addresses differ from execution to execution, so the conflict set of
-    # the explorer (a set of addresses) has no fixpoint; it is left to the stores-outside-arguments monitor of C20
-    for a, b in sani.threadsafe_pairs(('blobproperties', 'blob_moments'), ('blobproperties', 'blob_moments')):
+    for a, b in sani.threadsafe_pairs(('blobproperties', 'bloboverlaps', 'blob_moments'), ('blobproperties', 'bloboverlaps', 'blob_moments')):
         bad, r = callers_interfere(V, a, b)
         if r is None:
             continue
